@@ -697,7 +697,7 @@ class Interp:
                 st.append(('num', [r]))
             else:
                 # halving: both truncation toward zero and floor are accepted for negative odd values
-                st.append(('num', sorted({int(n / 2) if abs(n) < 2 ** 52 else (abs(n) // 2) * (1 if n >= 0 else -1), n // 2})))
+                st.append(('num', sorted({(abs(n) // 2) * (1 if n >= 0 else -1), n // 2})))
         elif o in (OP_MUL, OP_DIV, OP_MOD, OP_LSHIFT, OP_RSHIFT):
             need(2)
             a = self.num(st[-2], 8)
@@ -714,7 +714,7 @@ class Interp:
             elif o == OP_LSHIFT:
                 if b < 0:
                     raise ScriptFail("ANY")
-                rs = [a << b] if b < 64 else [None]
+                rs = [0] if a == 0 else ([a << b] if b < 64 else [None])
             else:
                 if b < 0:
                     raise ScriptFail("ANY")
